@@ -99,8 +99,8 @@ def run_history(chooser, steps):
                 ports[-1].fail_next_close = True        # closing the port raises
             _ret, exc = call(obj, "disconnect", ())
             if exc is not None or obj.port is not None:
-                viols.append(("disconnect", f"{where}disconnect() raised {exc!r} / left port "
-                              f"{obj.port!r}"))
+                viols.append(("disconnect", f"{where}disconnect() raised {exc!r}; the object "
+                              f"{'still holds its port' if obj.port is not None else 'dropped the port'}"))
             history.append("disconnect()")
         elif kind == "connect":
             env = step[1]
